@@ -49,7 +49,7 @@ func ruleLoopShapes(keep func(string) bool, floorD4, floorD5 int) ruleFunc {
 	return func(c *Ctx) {
 		p := c.P
 		c.R.Rule("D4: in every loop over tree members (orb.Collection elements, []*geojson.Geometry) the member is passed to a call as receiver or argument (recursion/delegation), not picked apart directly; " +
-			"D5: a loop over a geometry slice that accumulates results (append / set insert) contains no break that leaves it early")
+			"D5: a loop over a geometry slice that accumulates results (append / set insert) or stores the transformed member back in place contains no break that leaves it early")
 		nD4, nD5 := 0, 0
 		p.eachFuncDecl(func(pkg *packages.Package, fd *ast.FuncDecl) {
 			key := ShortKey(funcDeclKey(pkg, fd))
@@ -213,6 +213,10 @@ func ruleLoopShapes(keep func(string) bool, floorD4, floorD5 int) ruleFunc {
 									for _, l := range y.Lhs {
 										if ie, ok := l.(*ast.IndexExpr); ok {
 											if _, isMap := pkg.TypesInfo.TypeOf(ie.X).Underlying().(*types.Map); isMap {
+												accum = true
+											}
+											// in-place transformation: the member is stored back into the slice being walked
+											if exprKey(ie.X) == exprKey(rangeX) {
 												accum = true
 											}
 										}
